@@ -20,7 +20,13 @@ Ignorable == {"Unavailable", "Overloaded", "IsBootstrapping", "ReadTimeout", "Wr
               "RateLimitReached", "UnableToAllocStreamId", "BrokenConnection", "PoolInitializing", "PoolNodeDisabledByHostFilter", "PoolBroken"}
 Definitive == {"SyntaxError", "Invalid", "AlreadyExists", "Unauthorized", "ProtocolError", "AuthenticationError", "Other", "FunctionFailure", "ConfigError",
                "TruncateError", "RepreparedIdMissingInBatch", "NonfinishedPagingState", "EmptyPlan", "RequestTimeout"}
-ClassOK(r) == /\ r.name \in Ignorable \cup Definitive
+\* "Bound" records: executions that each take 5 units and succeed, max speculative executions, interval 0 or 1: never more than
+\* 1 + max are started, exactly that many when they fit before the first one ends, and the first answer (t = 5) is returned
+BoundOK(r) == /\ r.started <= 1 + r.max
+              /\ r.started = 1 + r.max             \* (interval <= 1 unit, 5 units each: all of them fit)
+              /\ r.result = "Ok" /\ r.t = 5
+ClassOK(r) == IF r.name = "Bound" THEN BoundOK(r) ELSE
+              /\ r.name \in Ignorable \cup Definitive
               /\ (r.name \in Ignorable => r.result = "Ok" /\ r.t = 5)          \* passed over: the later success is returned
               /\ (r.name \in Definitive => r.result = "Err" /\ r.t = 1)        \* returned at once
 TraceInit == l = 1 /\ TLCSet(1, 1)
